@@ -74,13 +74,16 @@ void h_expr_numeric(void) {
 }
 void h_expr_channel(void) {
     int n = nondet_int(), index = nondet_int(); size_t cap = nondet_size(); __CPROVER_assume(n >= 0 && n <= BODY && index >= 0 && index <= BODY + 1 && cap <= 3);
+#ifdef FIXN   /* enumerated form: body length and index fixed per job, bytes and capacity symbolic */
+    n = FIXN; index = FIXI;
+#endif
     setup(n);
     scpi_parameter_t param; param.type = SCPI_TOKEN_PROGRAM_EXPRESSION; param.ptr = text; param.len = n + 2;
     scpi_bool_t isRange = nondet_bool(); int32_t vf[4] = {701, 702, 703, 704}, vt[4] = {801, 802, 803, 804}; size_t dims = 99;
     scpi_expr_result_t res = SCPI_ExprChannelListEntry(&ctx, &param, index, &isRange, vf, vt, cap, &dims);
     const char *b = text + 1; int p = 0, i, r = 0, wf_prefix = 1; ent_t e; int has_at = (n > 0 && b[0] == '@');
     if (has_at) { p = 1; for (i = 0; i <= index; i++) { r = ref_entry(b, n, &p, 1, &e); if (r != 1) { wf_prefix = 0; break; } if (i < index) { if (p < n && b[p] == ',') p++; else { wf_prefix = 0; break; } } } } else wf_prefix = 0;
-    int q = 1, wf = has_at, count = 0; ent_t e2;
+    int q = 1, wf = has_at && n > 1 /* "(@)" has no entry: not a well-formed channel list, no claim beyond the general ones */, count = 0; ent_t e2;
     if (has_at && n > 1) for (;;) { if (ref_entry(b, n, &q, 1, &e2) != 1) { wf = 0; break; } count++; if (q == n) break; if (b[q] == ',') { q++; continue; } wf = 0; break; }
     size_t k = nondet_size(); __CPROVER_assume(k < 4);
     if (wf && index < count) {
